@@ -43,6 +43,7 @@ static long g_succ_starts; static bool g_succ_emplaced_at_start;
 static long g_sched_calls, g_sched_starts; static bool g_parked_at_sched_start, g_sched_emplaced_at_start;
 static long g_child_starts;
 static long g_releases; static bool g_alive;
+static long g_m_calls; static int g_m_id, g_m_tok;     /* schedule_from: receiver -> operation state member call */
 static long g_t_calls, g_c_calls; static int g_c_arg; static bool g_t_threw;
 
 #define SIGNALS (g_set_value + g_set_error + g_set_stopped)
@@ -54,7 +55,7 @@ static void init_ghost(void)
   g_f_calls = 0; g_f_arg = g_f_result = 0; g_f_index = 0; g_victim = 0; g_f_calls_victim = 0; g_may_throw = false;
   g_os_resets = 0; g_os_reset_before_signal = false; g_connects = 0; g_conn_sender = g_conn_op = 0; g_succ_starts = 0;
   g_succ_emplaced_at_start = false; g_sched_calls = g_sched_starts = 0; g_parked_at_sched_start = g_sched_emplaced_at_start = false;
-  g_child_starts = 0; g_releases = 0; g_alive = true; g_t_calls = g_c_calls = 0; g_c_arg = 0; g_t_threw = false;
+  g_child_starts = 0; g_releases = 0; g_alive = true; g_t_calls = g_c_calls = 0; g_c_arg = 0; g_t_threw = false; g_m_calls = 0; g_m_id = g_m_tok = 0;
 }
 
 /* ---- downstream receiver ------------------------------------------------------------------------------------ */
@@ -136,7 +137,12 @@ static void os_reset(struct op *o) { o->op_state_has = false; if (g_os_resets < 
 static int os_deref(struct op *o) { VX_ASSERT(o->op_state_has, "dereference of an empty std::optional (op_state)"); return 0; }
 static void child_start(int optok) { if (g_child_starts < 3) g_child_starts++; }
 /* a local decay-copy `T local(std::forward<T>(x))`: may throw */
-static int decay_copy(int tok) { if (g_may_throw && nondet_bool()) { vx_exc = true; g_thrown_tok = nondet_int(); return 0; } return tok; }
+static int decay_copy(int tok)
+{
+  VX_ASSERT(g_os_resets == 0, "the payload is copied out before the operation state that may own it is reset");
+  if (g_may_throw && nondet_bool()) { vx_exc = true; g_thrown_tok = nondet_int(); return 0; }
+  return tok;
+}
 
 /* ---- pika::detail::visit: call the overload of the active alternative ------------------------------------------------- */
 struct ovis { struct op *op_state; };          /* set_value_visitor<operation_state> / set_error_visitor */
@@ -177,8 +183,20 @@ static void holder_release(struct op *o)
   if (g_releases < 3) g_releases++;
   g_alive = false;
 }
+static int vx_current_exception(void) { VX_ASSERT(g_caught, "std::current_exception() outside a handler"); return g_current_exception; }
+#define VX_PACK(ts) ((ts).tok)   /* std::move(ts).get<Is>()...: all elements of the member_pack */
 static void vx_rethrow(int tok) { vx_exc = true; g_thrown_tok = tok; }
 static void vx_terminate(void) { }
+
+/* ---- schedule_from: the two internal receivers only call a member of the operation state ---------------------------- */
+enum { M_set_value_predecessor_sender = 1, M_set_error_predecessor_sender, M_set_stopped_predecessor_sender,
+       M_set_value_scheduler_sender, M_set_error_scheduler_sender, M_set_stopped_scheduler_sender };
+static void op_method(struct op *o, int id, int tok)
+{
+  VX_ASSERT(o == vx_op, "member of this operation state");
+  if (g_m_calls < 3) g_m_calls++;
+  g_m_id = id; g_m_tok = tok;
+}
 
 /* ---- try_catch_exception_ptr's two callables -------------------------------------------------------------------------- */
 static void t_call(void) { if (g_t_calls < 3) g_t_calls++; if (nondet_bool()) { vx_exc = true; g_thrown_tok = nondet_int(); g_t_threw = true; } }
